@@ -387,8 +387,8 @@ structure BWF (s : Store) : Prop where
   up : ∀ c p, s.parent c = some p → some c ∈ s.slots p
   /-- … and in no slot of anybody else -/
   down : ∀ p c, some c ∈ s.slots p → s.parent c = some p
-  /-- the two slots never hold the same node (so: exactly one slot) -/
-  distinct : ∀ p c, s.slots p ≠ [some c, some c]
+  /-- a node occurs at most once among the slots of a node (so: exactly one slot of its parent) -/
+  distinct : ∀ p c, (s.slots p).count (some c) ≤ 1
   /-- walking parents terminates -/
   acyc : ∀ v, Acc (IsParent s) v
   /-- ids in range -/
